@@ -174,7 +174,7 @@ def lean_build(targets, timeout=3600):
     return p.returncode == 0, (p.stdout + p.stderr)
 
 
-def lean_obligations(ctx, modules, facts=True, leanchecker=False):
+def lean_obligations(ctx, modules, facts=True, leanchecker=False, driver="shootmodel_rt"):
     """Build the property's theorem modules against freshly regenerated facts and audit them.
     returns dict(obligations=[...], discharged=[...], failed={name: why}, log=str, checker_cmd=str)"""
     from . import facts as factsmod
@@ -185,7 +185,7 @@ def lean_obligations(ctx, modules, facts=True, leanchecker=False):
         except InfraError:
             raise
     hits = forbidden_hits()
-    ok, log = lean_build(modules + ["shootmodel"])
+    ok, log = lean_build(modules + [driver])
     res["log"] = log[-6000:]
     names = []
     for m in modules:
@@ -239,9 +239,9 @@ def lean_obligations(ctx, modules, facts=True, leanchecker=False):
     return res
 
 
-def model_run(ctx, lines, timeout=1800):
+def model_run(ctx, lines, timeout=1800, driver=None):
     """feed S-expression lines to the Lean model driver; returns {id: {'region':..., 'model':{k:v}, 'spec':{k:v}, 'raw':[...]}}"""
-    exe = os.path.join(LEAN, ".lake", "build", "bin", "shootmodel")
+    exe = os.path.join(LEAN, ".lake", "build", "bin", driver or getattr(ctx, "driver", "shootmodel_rt"))
     if not os.path.exists(exe):
         raise InfraError("model driver not built: " + exe)
     p = subprocess.run([exe], input="\n".join(lines) + "\n", stdout=subprocess.PIPE, stderr=subprocess.PIPE,
@@ -306,10 +306,18 @@ class Result:
 
 
 def load_known():
-    p = os.path.join(VERIF, "known_findings.json")
-    if not os.path.exists(p):
-        return {"findings": [], "fixed": []}
-    return json.load(open(p))
+    """known_findings.json is the committed list; known_findings.d/*.json (one file per property) are merged in"""
+    out = {"findings": [], "fixed": []}
+    paths = [os.path.join(VERIF, "known_findings.json")]
+    d = os.path.join(VERIF, "known_findings.d")
+    if os.path.isdir(d):
+        paths += sorted(os.path.join(d, f) for f in os.listdir(d) if f.endswith(".json"))
+    for p in paths:
+        if os.path.exists(p):
+            j = json.load(open(p))
+            out["findings"] += j.get("findings", [])
+            out["fixed"] += j.get("fixed", [])
+    return out
 
 
 def known_for(prop):
@@ -345,8 +353,7 @@ def finish(ctx, obl, res, level_text=""):
     for fid, (f, v) in sorted(known_seen.items()):
         lines.append("KNOWN-FINDING: property=%s %s: %s" % (ctx.prop, fid, f["what"]))
     # a listed finding that did not reproduce is reported in the evidence (not an alarm)
-    not_reproduced = [f["id"] for f in known if f["id"] not in known_seen and not f.get("thorough_only", False) or
-                      (f["id"] not in known_seen and f.get("thorough_only", False) and ctx.tier == "thorough")]
+    not_reproduced = [f["id"] for f in known if f["id"] not in known_seen]
     n_replay = 0
     for v in new_viol[:5]:
         path = write_replay(ctx, n_replay, dict(v, kind="failing-input"))
@@ -450,13 +457,19 @@ def compare_cases(ctx, res, cases, impl, model, sig=None, norm=None, nontrivial=
         dk = [k for k in ref if (keys is None or k in keys) and im.get(k) != ref[k]]
         if "panic" in im or "error" in im:
             dk = dk or ["panic" if "panic" in im else "error"]
+        if dk and region != "WF":
+            # finding region: the model mirrors the code, so the implementation must still agree with the model
+            tk = [k for k in m["model"] if (keys is None or k in keys) and im.get(k) != m["model"][k]]
+            if tk:
+                res.tie_breaks.append({"case": c["sexp"], "why": "implementation differs from model (finding region %s) on %s" % (region, ",".join(tk)),
+                                       "impl": im, "model": m["model"], "keys": tk})
         if dk:
             s = sig(c, region, dk, im, m) if sig else "%s:%s" % (region, ",".join(sorted(dk)))
             res.violations.append({"case": c["sexp"], "region": region, "differing_keys": dk, "sig": s,
                                    "impl": im, "spec": ref, "model": m["model"], "cmd": c.get("cmd", ""),
                                    "why": "implementation differs from the property's specification on " + ", ".join(dk)})
             continue
-        mk = [k for k in ref if m["model"].get(k) != ref[k]]
+        mk = [k for k in ref if k in m["model"] and m["model"][k] != ref[k]]
         if region == "WF" and mk:
             res.tie_breaks.append({"case": c["sexp"], "why": "model differs from spec on a WF input (theorem instance does not hold in the driver)", "keys": mk})
         mk2 = [k for k in m["model"] if k not in ref and (keys is None or k in keys) and k in im and im[k] != m["model"][k]]
